@@ -76,6 +76,8 @@ pub struct GenState {
     pub paused: bool,
     /// allowances the generator has asked for so far (token, owner, spender)
     pub allowances: Vec<(Tok, String, String)>,
+    /// scripted operations to emit next (state-targeted steering), front first
+    pub script: std::collections::VecDeque<Op>,
 }
 
 fn users(cfg: &Cfg) -> Vec<String> {
